@@ -4,8 +4,11 @@ use vcore::*;
 
 mod common;
 mod c01;
+mod c02;
+mod c28;
+mod c29;
 
 fn main() {
     vref::field::startup_selfcheck();
-    main_with(vec![c01::prop()]);
+    main_with(vec![c01::prop(), c02::prop(), c28::prop(), c29::prop()]);
 }
